@@ -436,11 +436,105 @@ def load_pass(ctx):
         shutil.rmtree(tmp, ignore_errors=True)
 
 
+def retype_pass(ctx):
+    """the declared type of a feature changes after an object has already written it (a data type for another one, a
+    class for an unrelated one): the same object — and a new one — are then held to the type declared *now*, through
+    attribute syntax, eSet and the collection mutators"""
+    from pyecore import ecore as E
+    for k in range(24 if ctx.quick() else 300):
+        rng = common.sub_rng(ctx.seed, 'C03', 'retype', k)
+        A, B, H = E.EClass('A'), E.EClass('B'), E.EClass('H')
+        ref = k % 2 == 1
+        many = (k // 2) % 2 == 1
+        f = (E.EReference('f', A, upper=-1 if many else 1) if ref else E.EAttribute('f', E.EInt, upper=-1 if many else 1))
+        H.eStructuralFeatures.append(f)
+        old_ok, new_ok = (A(), B()) if ref else (3, 'three')
+        used = H()
+        first = rng.choice(['value', 'none']) if not many else 'value'
+        if many:
+            used.f.append(old_ok)
+        else:
+            used.f = old_ok if first == 'value' else None
+        f.eType = B if ref else E.EString
+        ctx.evaluations += 1
+        ctx.nontriv(('retype', k))
+        for who, o in (('the object that had written the feature before', used), ('a new object', H())):
+            for path in (['append', 'insert', 'extend'] if many else ['attr', 'eSet']):
+                def put(v):
+                    if path == 'append':
+                        o.f.append(v)
+                    elif path == 'insert':
+                        o.f.insert(0, v)
+                    elif path == 'extend':
+                        o.f.extend([v])
+                    elif path == 'attr':
+                        o.f = v
+                    else:
+                        o.eSet('f', v)
+                problem = None
+                try:
+                    put(new_ok if not ref else B())
+                except Exception as e:
+                    problem = f'a value of the new type is refused ({type(e).__name__})'
+                if not problem:
+                    try:
+                        put(old_ok if not ref else A())
+                        problem = 'a value of the old type is still accepted'
+                    except E.BadValueError:
+                        pass
+                    except Exception as e:
+                        problem = f'a value of the old type raises {type(e).__name__} instead of BadValueError'
+                if problem:
+                    ctx.violate({'clause': 'retype', 'path': path, 'ref': ref, 'many': many},
+                                f'a {"many" if many else "single"}-valued {"reference" if ref else "attribute"} retyped after use; {who}, {path}: {problem}',
+                                {'retype': k, 'path': path})
+                    return
+
+
+def opposite_type_pass(ctx):
+    """`EReference.eOpposite` stands in for a feature typed EReference: a reference, None and nothing else — whatever its
+    truth value — is accepted; a refused value leaves the pairing as it was"""
+    from pyecore import ecore as E
+    A = E.EClass('A')
+    bad_values = ['', 0, 0.0, False, [], (), {}, b'', 'x', 5, True, [1], A, E.EAttribute('a', E.EInt), object()]
+    for k, bad in enumerate(bad_values):
+        r1, r2 = E.EReference('r1', A), E.EReference('r2', A)
+        r1.eOpposite = r2
+        for path in ('attr', 'eSet', 'constructor'):
+            ctx.evaluations += 1
+            ctx.nontriv(('opposite-type', k, path))
+            raised = None
+            try:
+                if path == 'attr':
+                    r1.eOpposite = bad
+                elif path == 'eSet':
+                    r1.eSet('eOpposite', bad)
+                else:
+                    E.EReference('r3', A, eOpposite=bad)
+            except E.BadValueError:
+                raised = 'BadValueError'
+            except Exception as e:
+                raised = type(e).__name__
+            kept = r1.eOpposite is r2 and r2.eOpposite is r1
+            if raised != 'BadValueError' or not kept:
+                ctx.violate({'clause': 'stored-nonconforming' if raised is None else 'wrong-exception', 'path': f'eOpposite-{path}'},
+                            f'eOpposite given {bad!r} ({path}): {"accepted" if raised is None else "raised " + raised}; the previous pairing is '
+                            f'{"kept" if kept else "gone"}', {'opposite_type': k, 'path': path})
+                return
+    r1, r2 = E.EReference('r1', A), E.EReference('r2', A)
+    r1.eOpposite = r2
+    r1.eOpposite = None
+    if r1.eOpposite is not None or r2.eOpposite is not None:
+        ctx.violate({'clause': 'refused-conforming', 'path': 'eOpposite-attr'}, 'eOpposite = None does not release both ends', {'opposite_type': 'none'})
+
+
 def run(ctx):
     storecheck.run(ctx, CHECKS)
     default_conformance_pass(ctx)
     supertype_edit_pass(ctx)
     load_pass(ctx)
+    retype_pass(ctx)
+    opposite_type_pass(ctx)
     matrix(ctx)
     opposite_typing(ctx)
     ctx.rule += ('; plus the exhaustive conformance matrix: every ecore data type, two enumerations sharing a literal name, 5 classes '
